@@ -159,6 +159,14 @@ type headHandler struct{}
 
 func (headHandler) HandleWrite(ctx OutboundContext, message Message) {
 	var ch = ctx.Channel()
+
+	// a message may take several low-level writes (io.WriterTo, io.Reader): hold the message lock
+	// so that the bytes of messages written concurrently never interleave on the wire.
+	if c, ok := ch.(*channel); ok {
+		c.messageLock.Lock()
+		defer c.messageLock.Unlock()
+	}
+
 	switch m := message.(type) {
 	case []byte:
 		utils.AssertLength(ch.Write1(m))
